@@ -250,6 +250,107 @@ example : (binKppi 4 (halfShape 4) 1 (fun _ => 0) [0, 1, 3] [0, 1, 5] (fun _ _ _
     some [[15, 5], [12, 4]] := by
   decide +kernel
 
+/-! ### means -/
+
+/-- the per-mode quantity is conjugation symmetric: `F(-k) = F(k)` on mesh indices (`-i mod n`) -/
+def ConjSymm (n : Nat) (Ff : Nat → Nat → Nat → Rat) : Prop :=
+  ∀ i j l, i < n → j < n → l < n → Ff (negIdx n i) (negIdx n j) (negIdx n l) = Ff i j l
+
+/-- `|k|²` of the mode at mesh indices `(i, j, l)` -/
+def qOf (n i j l : Nat) : Nat := sq (fold n i) + sq (fold n j) + sq (fold n l)
+
+/-- **kmu_means.**  Let `Ff` be any conjugation-symmetric per-mode quantity on the full mesh (the code
+is handed its half `l ≤ n/2`).  For every bin the accumulated `weighted_counts[b][m]` is the sum of `Ff`
+over exactly the full-mesh modes classified to `(b, m)`, so the reported `power[b][m]`
+(`divIf (wsumT …) (cntT …)`) is their mean; and the content of `weighted_counts_k[b][m]` (the list `kqs` of
+`(|k|², weight)`) sums, for every function `G` of `|k|²` (the code uses `sqrt(·)·dk`), to the sum of
+`G(|k|²)` over exactly those modes, so `k_avg[b][m]` is the mean of `|k|` over them. -/
+theorem kmu_means (n T : Nat) (hn : 1 ≤ n) (assign : Nat → Nat) (ek em : List Rat)
+    (hek : ek ≠ []) (hem : em.tail ≠ []) (h1 : 1 ≤ em.tail.getLast hem) (hT : ∀ i < n, assign i < T)
+    (Ff : Nat → Nat → Nat → Rat) (hsym : ConjSymm n Ff) :
+    ∃ ts, allThreads (kmuRow n ek em (halfShape n)) n T assign = .ok ts ∧ ∀ b m,
+      cntT ts b m = fullCount n (clsKmu ek em) b m ∧
+      wsumT Ff ts b m = fullSumRat n (fun i j l =>
+        if clsKmu ek em (fold n i) (fold n j) (fold n l) = some (b, m) then Ff i j l else 0) ∧
+      divIf (wsumT Ff ts b m) (cntT ts b m) =
+        divIf (fullSumRat n (fun i j l =>
+          if clsKmu ek em (fold n i) (fold n j) (fold n l) = some (b, m) then Ff i j l else 0))
+          (fullCount n (clsKmu ek em) b m) ∧
+      ∀ G : Nat → Rat,
+        ratSum ((ts.map (fun cs => kqs cs b m)).flatten.map (fun qw => (qw.2 : Rat) * G qw.1)) =
+          fullSumRat n (fun i j l =>
+            if clsKmu ek em (fold n i) (fold n j) (fold n l) = some (b, m) then G (qOf n i j l) else 0) := by
+  obtain ⟨a, t, rfl⟩ := List.exists_cons_of_ne_nil hek
+  obtain ⟨a', t', rfl⟩ : ∃ a' t', em = a' :: t' := by
+    cases em with
+    | nil => simp at hem
+    | cons a' t' => exact ⟨a', t', rfl⟩
+  have hmu := mu_ok t' hem h1
+  have hts : allThreads (kmuRow n (a :: t) (a' :: t') (halfShape n)) n T assign = _ :=
+    allThreads_spec _ (rowSpec n (a :: t) (a' :: t')) n T assign
+      (fun i hi => kmuRow_spec n a t a' t' hmu i hi) hT
+  refine ⟨_, hts, ?_⟩
+  intro b m
+  have hc : cntT ((List.range T).map (fun tt => (((List.range n).filter (fun i => assign i == tt)).map
+      (rowSpec n (a :: t) (a' :: t'))).flatten)) b m = fullCount n (clsKmu (a :: t) (a' :: t')) b m := by
+    have := accT_threads (fun c => c.w) (rowSpec n (a :: t) (a' :: t')) n T assign hT b m
+    unfold cntT
+    rw [natSum_eq]
+    simp only [cnt_eq_acc]
+    rw [this, acc_flatten, List.map_map]
+    exact seq_counts n hn (a :: t) (a' :: t') b m
+  have hw : ∀ F : Nat → Nat → Nat → Rat, ConjSymm n F →
+      wsumT F ((List.range T).map (fun tt => (((List.range n).filter (fun i => assign i == tt)).map
+        (rowSpec n (a :: t) (a' :: t'))).flatten)) b m = fullSumRat n (fun i j l =>
+        if clsKmu (a :: t) (a' :: t') (fold n i) (fold n j) (fold n l) = some (b, m) then F i j l else 0) := by
+    intro F hF
+    have := accT_threads (fun c => (c.w : Rat) * F c.i c.j c.k) (rowSpec n (a :: t) (a' :: t')) n T assign hT b m
+    unfold wsumT
+    rw [ratSum_eq]
+    simp only [wsum_eq_acc]
+    rw [this, acc_flatten, List.map_map]
+    exact seq_wsum n hn (a :: t) (a' :: t') F hF b m
+  refine ⟨hc, hw Ff hsym, by rw [hc, hw Ff hsym], ?_⟩
+  intro G
+  -- the k-average content is the weighted sum of the symmetric quantity G(|k|²)
+  have hGsym : ConjSymm n (fun i j l => G (qOf n i j l)) := by
+    intro i j l hi hj hl
+    simp only [qOf, sq, natAbs_fold_negIdx n i hi, natAbs_fold_negIdx n j hj, natAbs_fold_negIdx n l hl]
+  rw [← hw _ hGsym]
+  have hk : ∀ cs : List Contrib, (kqs cs b m).map (fun qw => (qw.2 : Rat) * G qw.1) =
+      (cs.filter (inBin b m)).map (fun c => (c.w : Rat) * G c.q) := by
+    intro cs; simp [kqs]
+  rw [List.map_flatten, ratSum_eq, List.sum_flatten, List.map_map, List.map_map]
+  unfold wsumT
+  rw [ratSum_eq, List.map_map, List.map_map]
+  congr 1
+  apply List.map_congr_left
+  intro tt _
+  simp only [Function.comp_def, hk]
+  change acc (fun c => (c.w : Rat) * G c.q) _ b m = acc (fun c => (c.w : Rat) * G (qOf n c.i c.j c.k)) _ b m
+  rw [acc_flatten, acc_flatten, List.map_map, List.map_map]
+  congr 1
+  apply List.map_congr_left
+  intro i _
+  simp only [Function.comp_def]
+  apply acc_rowSpec_congr
+  intro j k b' m' hk
+  have hkk : sq (fold n k) = k * k := by unfold sq; rw [natAbs_fold_half n k hk hn]
+  simp only [qOf, hkk]
+
+/-- `|k|²` itself is a conjugation-symmetric per-mode quantity -/
+theorem conjSymm_qOf (n : Nat) : ConjSymm n (fun i j l => (qOf n i j l : Rat)) := by
+  intro i j l hi hj hl
+  simp only [qOf, sq, natAbs_fold_negIdx n i hi, natAbs_fold_negIdx n j hj, natAbs_fold_negIdx n l hl]
+
+example : ∃ ts, allThreads (kmuRow 4 [0, 2, 5] [0, 1 / 2, 1] (halfShape 4)) 4 2 (fun i => i % 2) = .ok ts ∧
+    cntT ts 1 0 = 10 ∧ wsumT (fun i j l => (qOf 4 i j l : Rat)) ts 1 0 = 32 := by
+  obtain ⟨ts, hts, h⟩ := kmu_means 4 2 (by omega) (fun i => i % 2) [0, 2, 5] [0, 1 / 2, 1] (by simp) (by simp)
+    (by decide +kernel) (fun i _ => Nat.mod_lt i (by omega)) _ (conjSymm_qOf 4)
+  refine ⟨ts, hts, ?_, ?_⟩
+  · rw [(h 1 0).1]; decide +kernel
+  · rw [(h 1 0).2.1]; decide +kernel
+
 /-! ### multipoles -/
 
 theorem cntT_zero (ts : List (List Contrib)) (b m : Nat) (h : cntT ts b m = 0) : ∀ cs ∈ ts, cnt cs b m = 0 := by
@@ -335,5 +436,35 @@ theorem Pn_zero (x : Rat) : Pn x 0 = .ok 1 := by
     bind, Except.bind]
 
 example : peval (legendre 4) (1 / 2) = (35 * (1 / 4 : Rat) ^ 2 - 30 * (1 / 4) + 3) / 8 := by decide +kernel
+
+/-- **kmu_pole_sums_partial.**  For an order whose coded `P_n` is the polynomial `P` (orders 0, 2, 4:
+`Pn_zero`, `Pn_two`, `Pn_four`; in general `legendre_table`), the accumulated multipole sum of `k` bin
+`b` is `Σ w · F · (2l+1) · P(mu²)` over exactly the accumulated cells of that `k` bin (which, by
+`kmu_counts_exact` / `kmu_means`, are the half-mesh representatives, with their Hermitian weights, of
+the full-mesh modes classified to `b`).
+
+Full statement NOT proved here (what is missing is only the re-indexing of this sum to the full mesh,
+i.e. `seq_wsum` for a sum restricted by the `k` bin alone instead of by `(k, mu)` bin; the quantity
+`(2l+1) P_l(mu²(i,j,l)) · Ff i j l` is conjugation symmetric whenever `Ff` is):
+  for conjugation-symmetric `Ff`, `binned_poles[ip][b] · counts_poles[b]
+     = Σ over full-mesh modes (i,j,l) with k-bin b of (2l+1) · P_l(mu²) · Ff i j l`. -/
+theorem kmu_pole_sums_partial (F : Nat → Nat → Nat → Rat) (pole b : Nat) (P : Rat → Rat)
+    (hP : ∀ x, Pn x pole = .ok (P x)) (cs : List Contrib) :
+    poleSum F pole b cs = .ok (((cs.filter (fun c => c.b == b)).map (fun c =>
+      (c.w : Rat) * (F c.i c.j c.k * (((2 * pole + 1 : Nat) : Rat) * P (mu2 (c.q - c.k * c.k) c.k))))).sum) := by
+  induction cs with
+  | nil => rfl
+  | cons c cs ih =>
+    unfold poleSum
+    by_cases hb : (c.b == b) = true
+    · rw [if_pos hb, hP, ih]
+      simp [hb]
+    · rw [if_neg hb, ih]
+      simp [hb]
+
+example (F : Nat → Nat → Nat → Rat) (cs : List Contrib) :
+    poleSum F 2 0 cs = .ok (((cs.filter (fun c => c.b == 0)).map (fun c =>
+      (c.w : Rat) * (F c.i c.j c.k * (((2 * 2 + 1 : Nat) : Rat) * ((3 * mu2 (c.q - c.k * c.k) c.k - 1) / 2))))).sum) :=
+  kmu_pole_sums_partial F 2 0 (fun x => (3 * x - 1) / 2) Pn_two cs
 
 end AbacusVerif.Binning
